@@ -210,22 +210,23 @@ def check_case(res, model, desc, mode, ids, tag):
     return dupidx
 
 
-def check_edited(res, desc, rng, tag):
+def check_edited(res, desc, rng, tag, desc2=None):
     """the report is a function of the reactions as they are NOW: search in every mode, edit type / window of some reactions
     in place, search again - against the pairwise reference of the edited description"""
     net, rl = build_net(desc)
     for mode in MODES:
         impl_report(net, rl, mode)
-    desc2 = [dict(d) for d in desc]
-    for k in rng.sample(range(len(desc)), rng.randint(1, max(1, len(desc) // 2))):
-        what = rng.choice(["type", "window", "both"])
-        if what in ("type", "both"):
-            desc2[k]["type"] = int(rng.choice([t for t in TYPES if int(t) != desc2[k]["type"]] or TYPES))
-            rl[k].reaction_type = ReactionType(desc2[k]["type"])
-        if what in ("window", "both"):
-            w = rng.choice(WINDOWS)
-            desc2[k]["tmin"], desc2[k]["tmax"] = w
-            rl[k].temp_min, rl[k].temp_max = w
+    if desc2 is None:
+        desc2 = [dict(d) for d in desc]
+        for k in rng.sample(range(len(desc)), rng.randint(1, max(1, len(desc) // 2))):
+            what = rng.choice(["type", "window", "both"])
+            if what in ("type", "both"):
+                desc2[k]["type"] = int(rng.choice([t for t in TYPES if int(t) != desc2[k]["type"]] or TYPES))
+            if what in ("window", "both"):
+                desc2[k]["tmin"], desc2[k]["tmax"] = rng.choice(WINDOWS)
+    for k, d in enumerate(desc2):
+        rl[k].reaction_type = ReactionType(d["type"])
+        rl[k].temp_min, rl[k].temp_max = d["tmin"], d["tmax"]
     case = {"kind": "c15-edited", "desc": desc, "edited": desc2}
     for mode in MODES:
         dupidx, first, _ = impl_report(net, rl, mode)
@@ -311,7 +312,9 @@ def replay(rp, info):
     reset_globals()
     ids = ident_map()
     case = rp.get("case") or {}
-    if "desc" in case:
+    if case.get("kind") == "c15-edited":
+        check_edited(res, case["desc"], None, "replay", desc2=case["edited"])
+    elif "desc" in case:
         check_case(res, model, case["desc"], case["mode"], ids, "replay")
     for v in res.violations:
         print(v["kind"], v["what"])
